@@ -405,12 +405,16 @@ ATOM = [
     KSTD(K, "C04.atomic.usize_agrees_with_std", "c04_atomic_usize_agrees_with_std", "same, AtomicUsize", [ATOMIC + "/int.rs::AtomicUsize::*"], tier="thorough"),
 ]
 LOCKS = [
-    KSTD(K, "C04.mutex.try_lock", "c04_mutex_try_lock",
-         "inv_M (holder.is_some() <=> no permit): try_lock is Ok <=> free; then holder == me, 0 permits; WouldBlock leaves holder and permits unchanged; one choice point",
+    KSTD(K, "C04.mutex.try_lock_free", "c04_mutex_try_lock_free",
+         "inv_M (holder.is_some() <=> no permit): try_lock on a free mutex is Ok; then holder == me, 0 permits; one choice point",
          [MUTEX + "::Mutex::try_lock"]),
-    KSTD(K, "C04.mutex.unlock", "c04_mutex_unlock",
-         "dropping the guard returns the permit, clears the holder, frees the inner std lock, makes a queued waiter runnable; one choice point before the effect",
+    KSTD(K, "C04.mutex.try_lock_held", "c04_mutex_try_lock_held",
+         "try_lock on a mutex held by another task is WouldBlock and leaves holder and permits unchanged; one choice point",
+         [MUTEX + "::Mutex::try_lock"], tier="thorough"),
+    KSTD(K, "C04.mutex.unlock_wakes_waiter", "c04_mutex_unlock_wakes_waiter",
+         "dropping the guard returns the permit, clears the holder, frees the inner std lock, makes the queued waiter runnable; one choice point before the effect",
          [MUTEX + "::MutexGuard::drop"]),
+    KSTD(K, "C04.mutex.unlock_no_waiter", "c04_mutex_unlock_no_waiter", "same, nobody queued", [MUTEX + "::MutexGuard::drop"], tier="thorough"),
     KSTD(K, "C04.mutex.lock_uncontended", "c04_mutex_lock_uncontended",
          "lock() on a free mutex returns with holder == me after exactly one choice point; the inner std lock is held by the guard",
          [MUTEX + "::Mutex::lock"]),
@@ -447,10 +451,12 @@ MPSCH = [
     KSTD(Kb, "C06.mpsc.try_send_rendezvous", "c06_try_send_rendezvous", "same, rendezvous: hands off only to a waiting receiver",
          [MPSC + "::Channel::send_internal"], B_CH),
     KSTD(Kb, "C06.mpsc.try_send_unbounded", "c06_try_send_unbounded", "same, unbounded: never Full", [MPSC + "::Channel::send_internal"], B_CH, tier="thorough"),
-    KSTD(Kb, "C06.mpsc.try_recv_bounded1", "c06_try_recv_bounded1",
-         "try_recv: Empty / Disconnected exactly when nothing is buffered (Disconnected iff no sender left); otherwise the HEAD is delivered once "
-         "(FIFO, also after the senders are gone) and a sender blocked on the full channel is released", [MPSC + "::Channel::recv_internal"], B_CH),
-    KSTD(Kb, "C06.mpsc.try_recv_unbounded", "c06_try_recv_unbounded", "same, unbounded, 2 messages: second message becomes the head",
+    KSTD(Kb, "C06.mpsc.try_recv_empty", "c06_try_recv_bounded1_empty",
+         "try_recv on an empty channel: Disconnected iff no sender is left, else Empty; nothing is invented", [MPSC + "::Channel::recv_internal"], B_CH),
+    KSTD(Kb, "C06.mpsc.try_recv_full", "c06_try_recv_bounded1_full",
+         "try_recv on a full bounded channel delivers the head exactly once (also after the senders are gone) and releases the sender blocked on it",
+         [MPSC + "::Channel::recv_internal"], B_CH),
+    KSTD(Kb, "C06.mpsc.try_recv_fifo", "c06_try_recv_unbounded_two", "2 buffered messages: the first sent is delivered, the second becomes the head",
          [MPSC + "::Channel::recv_internal"], B_CH, tier="thorough"),
 ]
 PROPS["C06"] = {
